@@ -151,8 +151,16 @@ PROPS['C04'] = dict(
     assumptions=COMMON_ASSUME + ['references held across clear/shrinkToFit/deserialize/swap/move of their document are dropped (don\'t-care 8)',
                                  'the boolean result of a write through an unbound reference is not judged (don\'t-care 15)'],
     extra_coverage={'distinct_concrete_states': lambda agg, d: d.get('concrete_states', 0), 'distinct_model_states': lambda agg, d: d.get('model_states', 0),
-                    'history_steps': lambda agg, d: agg['counters'].get('history_steps', 0)},
+                    'history_steps': lambda agg, d: agg['counters'].get('history_steps', 0),
+                    'deep_levels_observed': lambda agg, d: agg['counters'].get('deep_levels_observed', 0),
+                    'held_iterator_reads': lambda agg, d: agg['counters'].get('held_iterator_reads', 0),
+                    'removals_through_held_iterators': lambda agg, d: agg['counters'].get('removals_through_held_iterators', 0),
+                    'null_operand_probes': lambda agg, d: agg['counters'].get('null_operand_probes', 0)},
     must_observe={'live reference reads': lambda agg, d: agg['counters'].get('live_reference_reads', 0) > 0,
+                  'deep chain levels': lambda agg, d: agg['counters'].get('deep_levels_observed', 0) > 0,
+                  'held iterator reads': lambda agg, d: agg['counters'].get('held_iterator_reads', 0) > 0,
+                  'removals through held iterators': lambda agg, d: agg['counters'].get('removals_through_held_iterators', 0) > 0,
+                  'null operand probes': lambda agg, d: agg['counters'].get('null_operand_probes', 0) > 0,
                   'states with recycled slots': lambda agg, d: agg['counters'].get('states_with_free_slots', 0) > 0},
 )
 
@@ -444,6 +452,7 @@ def c10_jobs(tier):
         jobs.append(Job('tokens-cfg%d' % i, 'c10', 'tokens%d' % L, 0, defines=cfg, flavour='asan2', timeout=q(tier, 900, 14400)))
         jobs.append(Job('texts-cfg%d' % i, 'c10', 'texts', q(tier, 60000, 1000000), defines=cfg, timeout=q(tier, 900, 7200)))
         jobs.append(Job('hex-cfg%d' % i, 'c10', 'hex', 0, defines=cfg))
+        jobs.append(Job('keywords-cfg%d' % i, 'c10', 'keywords', 0, defines=cfg))
     jobs.append(Job('texts-shortstrings', 'c10', 'texts', q(tier, 30000, 500000), defines={'ARDUINOJSON_STRING_LENGTH_SIZE': 1, 'ARDUINOJSON_ENABLE_COMMENTS': 1, 'ARDUINOJSON_DEBUG': 1}))
     return jobs
 
@@ -452,7 +461,7 @@ PROPS['C10'] = dict(
     level='exploration',
     rule='(1) ALL sequences up to length L (quick 5 default config / 4 others; thorough 6 / 5) over an 18-token alphabet ({ } [ ] , : "s\\\\u0041" \'q\' k_1 1 -1.5e2 true false null ws //c /*c*/ #), '
          'each also with the end of input inside its last token and, for a quarter, under nesting limits 0..2; (2) texts from the C03 generator (valid, truncated, mutated, random) with single-quote, comment and '
-         'lenient-number substitutions under limits {0,1,2,3,10,50,255}; (3) every byte value in every digit position of \\\\uXXXX. Each input is judged by a three-valued recogniser of the documented dialect '
+         'lenient-number substitutions under limits {0,1,2,3,10,50,255}; (3) every byte value in every digit position of \\\\uXXXX; (4) true / false / null with every byte value at every position and every subset of letters in the other case, in five contexts. Each input is judged by a three-valued recogniser of the documented dialect '
          '(must-Ok with value / must-fail with allowed codes at the first offending position / don\'t-care); builds for COMMENTS, NAN, INFINITY, DECODE_UNICODE (3 in quick, all 16 in thorough); distinct = distinct input',
     jobs=c10_jobs,
     exhaustive=lambda tier: False,
@@ -565,7 +574,7 @@ PROPS['C18'] = dict(
     rule='value pool of about 230 values (integers at every width edge +-1 in signed and unsigned storage and both signs, floats/doubles incl. +-0, subnormals, 2^53+-1, 2^63, 2^64, +-inf, NaN; '
          'linked and copied strings incl. prefixes, NUL, bytes >= 0x80; raw values that are prefixes of one another; bin values; nested arrays, permuted objects; null; unbound): ALL ordered pairs x six operators x both operand orders, '
          'within one document, across two documents (other storage), JsonVariant vs JsonVariantConst, container handles, unbound references, std::string / const char* / JsonString operands; '
-         'and every value against C++ scalars of 11 types at their edges. Judged: the six coherence laws on every pair; agreement with the values wherever the statement determines it. distinct = pair index',
+         'JsonString handles of every pair of strings, null C++ string operands (null char pointer, null JsonString), views of the own storage of the variant cut to other lengths; and every value against C++ scalars of 11 types at their edges. Judged: the six coherence laws on every pair; agreement with the values wherever the statement determines it. distinct = pair index',
     jobs=c18_jobs,
     exhaustive=lambda tier: True,
     min_evaluations=dict(quick=40000, thorough=100000),
@@ -573,7 +582,11 @@ PROPS['C18'] = dict(
     level_text='Exploration, exhaustive for the pool (all ordered pairs).',
     level_note='Not determined by the statement and judged by the laws only: NaN operands (don\'t-care 4), bool against number, the order (not the equality) of two strings / raws / booleans.',
     assumptions=COMMON_ASSUME,
-    extra_coverage={'pair_comparisons': lambda agg, d: agg['counters'].get('pair_comparisons', 0), 'scalar_comparisons': lambda agg, d: agg['counters'].get('scalar_comparisons', 0)},
+    extra_coverage={'pair_comparisons': lambda agg, d: agg['counters'].get('pair_comparisons', 0), 'scalar_comparisons': lambda agg, d: agg['counters'].get('scalar_comparisons', 0),
+                    'own_storage_views': lambda agg, d: agg['counters'].get('own_storage_views', 0), 'null_string_operands': lambda agg, d: agg['counters'].get('null_string_operands', 0),
+                    'jsonstring_comparisons': lambda agg, d: agg['counters'].get('jsonstring_comparisons', 0)},
+    must_observe={'views of the variant\'s own storage': lambda agg, d: agg['counters'].get('own_storage_views', 0) > 0,
+                  'null string operands': lambda agg, d: agg['counters'].get('null_string_operands', 0) > 0},
 )
 
 
@@ -702,7 +715,7 @@ PROPS['C20'] = dict(
     rule='rounds of T in {2,4,8,16} threads released together by a barrier; each thread runs (1) a C04 API history of 10..40 steps on its own documents (own instrumented allocator or the shared default allocator), judged by the model, '
          '(2) parse / pretty-print / MessagePack / number conversion of generated texts, (3) const-only use of ONE shared document: copy source, comparison operand, Filter(JsonVariantConst), iteration, measure; random sched_yield / spin delays '
          'BETWEEN API calls. Oracles: ThreadSanitizer reports (collected through __tsan_on_report, classified by whether a library frame is on the stack), model agreement inside each thread, and equality of each thread\'s result digest '
-         'with the same workload run alone beforehand; a second, uninstrumented -O2 build repeats the rounds for higher contention. Interleavings are measured from per-thread rdtsc stamps merged after join. distinct = distinct interleaving of the recorded points',
+         'with the same workload run alone beforehand; a second, uninstrumented -O2 build repeats the rounds for higher contention; in the first round of every process (one process per round in the tsan-cold job) the threads run BEFORE the reference, on cold lazily-initialised state. Interleavings are measured from per-thread rdtsc stamps merged after join. distinct = distinct interleaving of the recorded points',
     jobs=c20_jobs,
     min_evaluations=dict(quick=1500, thorough=60000),
     technique='race detection with ThreadSanitizer (g++ -fsanitize=thread) on concurrent per-thread histories plus sequential-equivalence comparison of recorded per-thread results; no shared monitor state inside the threads',
@@ -711,6 +724,8 @@ PROPS['C20'] = dict(
     assumptions=['g++ 12 ThreadSanitizer runtime; malloc/free are intercepted and synchronised by the runtime', 'verdict is about the executions produced by this run only'],
     extra_coverage={'distinct_interleavings': lambda agg, d: d.get('interleavings', 0), 'thread_rounds': lambda agg, d: agg['counters'].get('thread_rounds', 0),
                     'threads_run': lambda agg, d: agg['counters'].get('threads_run', 0), 'thread_switch_points': lambda agg, d: agg['counters'].get('thread_switch_points', 0),
-                    'tsan_rounds': lambda agg, d: agg['outcomes'].get('tsan-round', 0)},
-    must_observe={'thread switches': lambda agg, d: agg['counters'].get('thread_switch_points', 0) > 100, 'tsan rounds': lambda agg, d: agg['outcomes'].get('tsan-round', 0) > 0},
+                    'tsan_rounds': lambda agg, d: agg['outcomes'].get('tsan-round', 0),
+                    'cold_or_concurrent_first_rounds': lambda agg, d: agg['counters'].get('cold_or_concurrent_first_rounds', 0)},
+    must_observe={'rounds with cold library state': lambda agg, d: agg['counters'].get('cold_or_concurrent_first_rounds', 0) > 0,
+                  'thread switches': lambda agg, d: agg['counters'].get('thread_switch_points', 0) > 100, 'tsan rounds': lambda agg, d: agg['outcomes'].get('tsan-round', 0) > 0},
 )
